@@ -79,11 +79,12 @@ CHECKS.update({
              'first record never all-zero (ambiguous with padding)',
         design='5/C02'),
     'C03': dict(
-        technique='TLC model checking of Container_MC (every chunking, every block sequence over the 7 tags: '
-                  'ChunkingInvariance, MetaExact, LogStringsResolved, LogsExtendTables); parse histories of encoded '
+        technique='TLC model checking of Container_MC (every chunking, every block sequence over the 7 tags, record values '
+                  'that repeat inside / across chunks: YieldsExact, ChunkingInvariance, MetaExact, LogStringsResolved, '
+                  'LogsExtendTables; negative control DedupChunkHead); parse histories of encoded '
                   'v3 files validated against Container!ParseFile in TLC',
         text='Chunkings, block orders/multiplicities and log/table interplay explored on the design; real v3 byte '
-             'files (fillers with tag prefixes and decoy tags) bind the code.',
+             'files (fillers with tag prefixes and decoy tags, equal neighbouring records, headers of every alignment) bind the code.',
         note='v3 layout has no independent reference (follows the parser declarative structs); <= 1 string index block',
         design='5/C03'),
 })
@@ -123,10 +124,13 @@ CHECKS.update({
         technique='TLC model checking of Pipeline_MC (mechanism with helper classes == reference selection from the '
                   'unfiltered run, repeat-same, settings kept, callstack repeat; four negative controls = the designs '
                   'of the pinned tree); request histories on one PyKdebugParser recorded and validated against '
-                  'Pipeline!RefTraces / CsFold in TLC; trace text compared with the unfiltered run of the code',
+                  'Pipeline!RefTraces / CsFold in TLC; trace text compared with the unfiltered run of the code; '
+                  'Sessions_MC at generator grain (negative controls clsOnObject, namesOnObject) with TLC-exported schedules '
+                  'replayed on the real object and judged by Sessions_Val in TLC',
         text='TLC finds the design-level counterexamples of the pinned tree (thread pre-filter, missing PERF helper, '
              'mutated caller list, image residue) and proves the repaired mechanism equal to the property inside the '
-             'bounds; the code is bound by validating real request histories.',
+             'bounds; the code is bound by validating real request histories, incl. use-before-definition dumps requested '
+             'repeatedly on one object (a record read before the record that names its thread).',
         note='BSD subclass filters only (statement scope); trace identity = (completing event, first event)',
         design='5/C13'),
 })
